@@ -442,7 +442,7 @@ def run(F, tier, res):
                             okk += 1
                         else:
                             res.violate('KEYS', 'builder=%s;key=%s' % (bp, ks[0]), 'style key %r is built from opt.%s' % (ks[0], sorted(flds)), where=F.bodies[bp]['mir']['span']['at'])
-        res.rule('C12.KEYS', nk, 40, 'Config Style fields read from styles["k"] and builder pairs ("k", style_from_str(&opt.f)) with k == kebab(field)', discharged=okk)
+        res.rule('C12.KEYS', nk, 25, 'Config Style fields read from styles["k"] and builder pairs ("k", style_from_str(&opt.f)) with k == kebab(field)', discharged=okk)
     # ---------- TRUECOLOR: sibling agreement on the colour-depth argument
     # every function with a parameter named `true_color` is a colour-depth consumer; every call to one must pass a value that
     # derives from the computed true_color option (or the caller's own true_color parameter). Constants are allowed only at the
@@ -479,7 +479,7 @@ def run(F, tier, res):
             else:
                 res.violate('TRUECOLOR', 'fn=%s;callee=%s' % (q, r.split('::')[-1]), 'a style/colour parser is called with a constant colour depth instead of the computed true_color setting '
                             '(its sibling call sites pass the setting): in 256-colour mode these styles are emitted as 24-bit colours', where=F.span_of_call(c))
-    res.rule('C12.TRUECOLOR', ntc, 40, 'calls to functions with a `true_color` parameter; each passes the computed setting (frozen constant sites: %d)' % len(TC_CONST_OK), discharged=oktc)
+    res.rule('C12.TRUECOLOR', ntc, 25, 'calls to functions with a `true_color` parameter; each passes the computed setting (frozen constant sites: %d)' % len(TC_CONST_OK), discharged=oktc)
     # determinism of printed names
     sites = [s for s in e4.analyse(F, [D])]
     for s in sites:
